@@ -31,7 +31,7 @@ func (fr *frame) toNative(x value, t types.Type, useMethods bool) interface{} {
 	}
 	if useMethods && t != nil {
 		for _, name := range []string{"Error", "String"} {
-			if m := in.prog.LookupMethod(t, nil, name); m != nil && m.Signature.Params().Len() == 0 && m.Signature.Results().Len() == 1 {
+			if m := in.findMethod(t, name); m != nil && m.Signature.Params().Len() == 0 && m.Signature.Results().Len() == 1 {
 				if b := basicOf(m.Signature.Results().At(0).Type()); b != nil && b.Kind() == types.String {
 					if p, ok := x.(*value); ok && p == nil {
 						return rawText("<nil>")
@@ -397,7 +397,7 @@ func (fr *frame) writeTo(w value, bs []value) value {
 	if wi.t == nil {
 		in.rtPanic("invalid memory address or nil pointer dereference (nil io.Writer)")
 	}
-	m := in.prog.LookupMethod(wi.t, nil, "Write")
+	m := in.findMethod(wi.t, "Write")
 	if m == nil {
 		panic(engineError{"fmt.Fprint*: writer without Write method: " + wi.t.String()})
 	}
